@@ -1,5 +1,7 @@
 import MxModel.Props.C01
 import MxModel.Props.C06
+import MxModel.Proofs.ExecCertTop
+import MxModel.Proofs.ExprCert
 /-!
 # C02 – no stale value survives any edit
 
@@ -16,12 +18,29 @@ What is proved here, for the value layer's mechanism model and for every formula
   the value a model that only saw the edits returns (`Den env'`), whatever was cached before.
 * for value edits the clearing is exact (C06: `set_value_exact`, `clear_at_exact`).
 
-What is **not** a Lean theorem: that the clearing modelx performs for each kind of edit
-(namespace notification, `clear_obj`, `clear_attr_referrers`, `clear_with_descs`) covers
-every held element outside such a set – this is decided by the implementation-only oracle
-(live model against a model to which only the edits were applied, after every evaluation) and
-by the small-scope exhaustive enumeration of single edits; six places where it did not were
-repaired (known_findings.json), one is structural and recorded (C02-caught-failure-untracked).
+**Mechanism level** (second half of this file; proofs in `Proofs/ExecCert*.lean`): the clearing
+that modelx performs for an edit – namespace notification of the observer cells then
+`clear_attr_referrers` for a reference edit (`St.setRef`, `St.delRef`), `clear_obj` for a formula
+or flag edit (`St.setFormula`), `clear_with_descs` for a value edit (`St.setValue`,
+`St.clearValueAt`) – *discharges* the obligation `hsurv` of `no_stale_after_edit`:
+`no_stale_after_ref_edit`, `no_stale_after_ref_delete`, `no_stale_after_formula_edit`,
+`no_stale_after_value_edit` conclude `Good env' …` for the edited environment with **no**
+hypothesis about the survivors, from the certificate invariant `CI`, which every reachable
+state has (`reachable_ci`: evaluations – successful or failed –, value edits, reference edits,
+formula and flag edits, in any interleaving).  Hypotheses, all named and visible:
+`Ranked env lt` (terminating programs, the regime of C06/C08), `NoCatchEnv env` (no formula turns
+a failure into a value: known finding C02-caught-failure-untracked, `full_statement_fails_catch`
+below), `Scoped env` (static scoping: a by-name read is of a reference of the formula's own
+space, which is how Python resolves globals), and – only for the corollary about what later
+evaluations *return*, inherited from C01 – `LimitNeverCaught` (`hit = false`).
+
+What is **not** a Lean theorem: the structural part of the property (which spaces a structural
+edit notifies, derived members) – decided by the implementation-only oracle (live model against
+a model to which only the edits were applied, after every evaluation) and by the small-scope
+exhaustive enumeration of single edits.  The mechanism model functions the theorems are about
+are tied to the code by the value-layer correspondence of this property's check
+(`harness/mxh/props/c02.py`: held values, trace graph and reference graph after every
+operation of generated histories with reference, formula, flag and value edits).
 -/
 namespace MxModel.C02
 open MxModel.Exec
@@ -124,6 +143,373 @@ reference 0; changing the formula of `c2` leaves its denotation untouched. -/
 example : CallsIn (fun n => n = (0, [.int 7])) (C08.gEnv.formula (0, [.int 7])) ∧
     ReadsIn (fun r => r = 0) (C08.gEnv.formula (0, [.int 7])) := by
   simp [C08.gEnv, C08.gCells, formulaOf, compile, arith, CallsIn, ReadsIn]
-  constructor <;> intro v <;> cases v <;> simp [CallsIn, ReadsIn]
+  constructor <;> intro o <;> cases o with
+    | none => simp [CallsIn, ReadsIn]
+    | some v => cases v <;> simp [CallsIn, ReadsIn]
+
+/-! ## Mechanism level: the clearing modelx performs discharges the obligation -/
+
+/-- the hypotheses on programs under which the certificate invariant is maintained -/
+structure WF (env : Env) (lt : Node → Node → Prop) : Prop where
+  ranked : Ranked env lt
+  noCatch : NoCatchEnv env
+  scoping : Scoped env
+
+def _root_.MxModel.Exec.Env.withRef (env : Env) (r : RefId) (x : Option Val) : Env :=
+  { env with refs := fun r' => if r' = r then x else env.refs r' }
+
+def _root_.MxModel.Exec.Env.withFormula (env : Env) (c : CellId) (f : Key → Prog) : Env :=
+  { env with formula := fun n => if n.1 = c then f n.2 else env.formula n }
+
+def _root_.MxModel.Exec.Env.withCached (env : Env) (c : CellId) (b : Bool) : Env :=
+  { env with cached := fun c' => if c' = c then b else env.cached c' }
+
+theorem refEdit_withRef (env : Env) (r : RefId) (x : Option Val) : RefEdit env (env.withRef r x) r :=
+  ⟨rfl, rfl, rfl, fun r' h => by simp [Env.withRef, h]⟩
+
+theorem cellEdit_withFormula (env : Env) (c : CellId) (f : Key → Prog) :
+    CellEdit env (env.withFormula c f) c :=
+  ⟨fun n h => by simp [Env.withFormula, h], fun _ _ => rfl, fun _ _ => rfl, rfl⟩
+
+theorem cellEdit_withCached (env : Env) (c : CellId) (b : Bool) : CellEdit env (env.withCached c b) c :=
+  ⟨fun _ _ => rfl, fun c' h => by simp [Env.withCached, h], fun _ _ => rfl, rfl⟩
+
+/-- a reference edit changes none of the hypotheses on programs -/
+theorem wf_withRef {env : Env} {lt : Node → Node → Prop} (h : WF env lt) (r : RefId) (x : Option Val) :
+    WF (env.withRef r x) lt := ⟨h.ranked, h.noCatch, h.scoping⟩
+
+/-- **T1** – a top-level evaluation, successful or failed, keeps the invariant. -/
+theorem eval_keeps_certificates (env : Env) (lt : Node → Node → Prop) (ho : StrictOrder lt)
+    (hw : WF env lt) (s : St) (n : Node) (h : CI env lt s) : CI env lt (evalTop env n s).2 :=
+  evalTop_ci ho hw.ranked hw.noCatch n h
+
+/-- **T2** – certificates imply soundness: every held value is the uncached denotation under
+the current definitions and the current inputs. -/
+theorem certificates_sound (env : Env) (lt : Node → Node → Prop) (s : St) (h : CI env lt s) :
+    Good env (inpOf s) s := h.good
+
+/-- **T3 – no stale value survives a reference edit** (`space.r = v`, creating or changing the
+reference): after the clearing modelx performs, *every* value still held is the denotation under
+the NEW definitions.  No hypothesis about the survivors. -/
+theorem no_stale_after_ref_edit (env : Env) (lt : Node → Node → Prop) (hw : WF env lt) (s : St)
+    (h : CI env lt s) (r : RefId) (v : Val) :
+    CI (env.withRef r (some v)) lt (s.setRef env r) ∧
+    Good (env.withRef r (some v)) (inpOf (s.setRef env r)) (s.setRef env r) :=
+  have := setRef_ci h hw.scoping hw.noCatch (refEdit_withRef env r (some v))
+  ⟨this, this.good⟩
+
+/-- …and the deletion of a reference (`del space.r`). -/
+theorem no_stale_after_ref_delete (env : Env) (lt : Node → Node → Prop) (hw : WF env lt) (s : St)
+    (h : CI env lt s) (r : RefId) (hex : (env.refs r).isSome = true) :
+    CI (env.withRef r none) lt (s.delRef env r) ∧
+    Good (env.withRef r none) (inpOf (s.delRef env r)) (s.delRef env r) :=
+  have := delRef_ci h hw.scoping hw.noCatch (refEdit_withRef env r none) hex
+  ⟨this, this.good⟩
+
+/-- **T4 – …a formula edit** (`cells.formula = f`; `clear_obj`) – for ANY new definition `env'`
+of the cells (formula, cache flag, `allow_none`). -/
+theorem no_stale_after_formula_edit (env env' : Env) (lt : Node → Node → Prop) (s : St)
+    (h : CI env lt s) (c : CellId) (hed : CellEdit env env' c) :
+    CI env' lt (s.setFormula c) ∧ Good env' (inpOf (s.setFormula c)) (s.setFormula c) :=
+  have := setFormula_ci h hed
+  ⟨this, this.good⟩
+
+/-- **T4 – …a value edit** (assignment; `clear_with_descs`, exact by C06): all held values are
+denotations w.r.t. the NEW inputs. -/
+theorem no_stale_after_value_edit (env : Env) (lt : Node → Node → Prop) (s : St) (h : CI env lt s)
+    (n : Node) (v : Val) (hc : env.cached n.1 = true) :
+    CI env lt (s.setValue env n v).1 ∧
+    Good env (inpOf (s.setValue env n v).1) (s.setValue env n v).1 :=
+  have := setValue_ci h n v hc
+  ⟨this, this.good⟩
+
+theorem no_stale_after_clear (env : Env) (lt : Node → Node → Prop) (s : St) (h : CI env lt s)
+    (n : Node) : CI env lt (s.clearValueAt n true) ∧
+    Good env (inpOf (s.clearValueAt n true)) (s.clearValueAt n true) :=
+  have := clearValueAt_ci h n true
+  ⟨this, this.good⟩
+
+/-! ### every reachable state -/
+
+inductive Op
+  | eval (n : Node)
+  | setValue (n : Node) (v : Val)
+  | clearAt (n : Node)
+  | clear (c : CellId)
+  | clearAll (c : CellId)
+  | setRef (r : RefId) (v : Val)
+  | delRef (r : RefId)
+  | setFormula (c : CellId) (f : Key → Prog)
+  | setCached (c : CellId) (b : Bool)
+
+/-- one operation on the definitions and the mechanism state, in modelx's order: the clearing
+happens while the old definitions are in force, then the definition changes -/
+def step : Env × St → Op → Env × St
+  | (env, s), .eval n => (env, (evalTop env n s).2)
+  | (env, s), .setValue n v => (env, if env.cached n.1 then (s.setValue env n v).1 else s)
+  | (env, s), .clearAt n => (env, s.clearValueAt n true)
+  | (env, s), .clear c => (env, s.clearAllValues c false)
+  | (env, s), .clearAll c => (env, s.clearAllValues c true)
+  | (env, s), .setRef r v => (env.withRef r (some v), s.setRef env r)
+  | (env, s), .delRef r => if (env.refs r).isSome then (env.withRef r none, s.delRef env r) else (env, s)
+  | (env, s), .setFormula c f => (env.withFormula c f, s.setFormula c)
+  | (env, s), .setCached c b => if env.cached c = b then (env, s) else (env.withCached c b, s.setFormula c)
+
+def run (st : Env × St) (ops : List Op) : Env × St := ops.foldl step st
+
+/-- the definitions stay within the regime after every operation (automatic for everything
+except formula and flag edits, `wf_withRef`) -/
+def Admissible (lt : Node → Node → Prop) : Env × St → List Op → Prop
+  | _, [] => True
+  | st, op :: ops => WF (step st op).1 lt ∧ Admissible lt (step st op) ops
+
+theorem step_ci (lt : Node → Node → Prop) (ho : StrictOrder lt) (st : Env × St) (op : Op)
+    (hw : WF st.1 lt) (h : CI st.1 lt st.2) : CI (step st op).1 lt (step st op).2 := by
+  obtain ⟨env, s⟩ := st
+  cases op with
+  | eval n => exact eval_keeps_certificates env lt ho hw s n h
+  | setValue n v =>
+    simp only [step]
+    split
+    · rename_i hc; exact setValue_ci h n v hc
+    · exact h
+  | clearAt n => exact clearValueAt_ci h n true
+  | clear c => exact clearAllValues_ci h c false
+  | clearAll c => exact clearAllValues_ci h c true
+  | setRef r v => exact (no_stale_after_ref_edit env lt hw s h r v).1
+  | delRef r =>
+    simp only [step]
+    split
+    · rename_i hex; exact (no_stale_after_ref_delete env lt hw s h r hex).1
+    · exact h
+  | setFormula c f => exact setFormula_ci h (cellEdit_withFormula env c f)
+  | setCached c b =>
+    simp only [step]
+    split
+    · exact h
+    · exact setFormula_ci h (cellEdit_withCached env c b)
+
+theorem run_ci (lt : Node → Node → Prop) (ho : StrictOrder lt) : ∀ (ops : List Op) (st : Env × St),
+    WF st.1 lt → CI st.1 lt st.2 → Admissible lt st ops →
+    CI (run st ops).1 lt (run st ops).2 ∧ WF (run st ops).1 lt := by
+  intro ops
+  induction ops with
+  | nil => intro st hw h _; exact ⟨h, hw⟩
+  | cons op rest ih =>
+    intro st hw h hadm
+    exact ih (step st op) hadm.1 (step_ci lt ho st op hw h) hadm.2
+
+/-- **Every reachable quiescent state has the certificate invariant**: after any finite
+interleaving of evaluations (successful, failed), value edits, reference edits (change, create,
+delete) and formula / flag edits, starting from the empty model. -/
+theorem reachable_ci (lt : Node → Node → Prop) (ho : StrictOrder lt) (env0 : Env) (hw0 : WF env0 lt)
+    (ops : List Op) (hadm : Admissible lt (env0, {}) ops) :
+    CI (run (env0, {}) ops).1 lt (run (env0, {}) ops).2 ∧ WF (run (env0, {}) ops).1 lt :=
+  run_ci lt ho ops (env0, {}) hw0 (CI.empty env0 lt) hadm
+
+/-- **C02 for the value layer**: in every reachable state, every held value is the denotation
+under the CURRENT definitions – whatever was evaluated before the edits. -/
+theorem no_stale_value_reachable (lt : Node → Node → Prop) (ho : StrictOrder lt) (env0 : Env)
+    (hw0 : WF env0 lt) (ops : List Op) (hadm : Admissible lt (env0, {}) ops) :
+    Good (run (env0, {}) ops).1 (inpOf (run (env0, {}) ops).2) (run (env0, {}) ops).2 :=
+  (reachable_ci lt ho env0 hw0 ops hadm).1.good
+
+/-- **T5 – later answers equal those of a model that saw only the edits** (partial:
+`LimitNeverCaught` for the two evaluations, as in C01).  `sF` is any state of the edited model in
+which nothing stale can be held – e.g. the model to which only the edits were applied, which
+holds the inputs and nothing else (`Good` is then immediate). -/
+theorem later_answers_equal_fresh_model_partial (env' : Env) (lt : Node → Node → Prop) (s' sF : St)
+    (h : CI env' lt s') (hF : Good env' (inpOf s') sF) (n : Node) (v w : Val)
+    (h0 : s'.hit = false) (h0F : sF.hit = false)
+    (hend : (evalTop env' n s').2.hit = false) (hendF : (evalTop env' n sF).2.hit = false)
+    (hv : (evalTop env' n s').1 = .ok v) (hw : (evalTop env' n sF).1 = .ok w) : v = w :=
+  C01.order_independent env' (inpOf s') n s' sF h.good hF h0 h0F hend hendF v w hv hw
+
+/-! ### a syntactic class of programs in the regime, and non-vacuity
+
+Environments built from a table of `try`-free bodies in which cells `i` calls cells `< i` only,
+with the space of every cells and reference given (exactly what `Driver.Exec.World.env` builds
+from the harness' program description), are `WF`. -/
+
+def tableEnv (cells : CellId → Option Expr) (ar : CellId → Option Nat) (ids : List CellId)
+    (cached allowNone : CellId → Bool) (cspace : CellId → Nat) (rspace : RefId → Nat)
+    (refs : RefId → Option Val) (maxdepth : Nat) : Env where
+  formula := fun n => match cells n.1 with
+    | some e => formulaOf ar (scopeExpr (fun r => rspace r == cspace n.1) e) n.2
+    | none => .raise (.user kName)
+  cached := cached
+  allowNone := allowNone
+  refs := refs
+  maxdepth := maxdepth
+  observers := fun r => ids.filter (fun c => cspace c == rspace r)
+
+theorem tableEnv_wf (cells : CellId → Option Expr) (ar : CellId → Option Nat) (ids : List CellId)
+    (cached allowNone : CellId → Bool) (cspace : CellId → Nat) (rspace : RefId → Nat)
+    (refs : RefId → Option Val) (maxdepth : Nat)
+    (hids : ∀ i e, cells i = some e → i ∈ ids)
+    (hbody : ∀ i e, cells i = some e → noTry e = true ∧ callsBelowId i e = true) :
+    WF (tableEnv cells ar ids cached allowNone cspace rspace refs maxdepth) idLt := by
+  refine ⟨?_, ?_, ?_⟩
+  · refine ranked_of_table (fun i => (cells i).map (scopeExpr (fun r => rspace r == cspace i))) ar _ ?_ ?_
+    · intro n
+      simp only [tableEnv]
+      cases cells n.1 <;> rfl
+    · intro i e h
+      cases hc : cells i with
+      | none => simp [hc] at h
+      | some e0 =>
+        simp only [hc, Option.map_some, Option.some.injEq] at h
+        subst h
+        rw [(scope_facts _ i e0).2.2]; exact (hbody i e0 hc).2
+  · intro n
+    simp only [tableEnv]
+    cases hc : cells n.1 with
+    | none => trivial
+    | some e =>
+      exact (formulaOf_pw (fun _ => True) (fun r => rspace r == cspace n.1) (fun _ _ => trivial) ar _ n.2
+        (by rw [(scope_facts _ n.1 e).2.1]; exact (hbody n.1 e hc).1) (scope_facts _ n.1 e).1).1
+  · intro n
+    simp only [tableEnv]
+    cases hc : cells n.1 with
+    | none => trivial
+    | some e =>
+      refine (formulaOf_pw _ (fun r => rspace r == cspace n.1) ?_ ar _ n.2
+        (by rw [(scope_facts _ n.1 e).2.1]; exact (hbody n.1 e hc).1) (scope_facts _ n.1 e).1).2
+      intro r hr
+      simp only [List.mem_filter]
+      refine ⟨hids n.1 e hc, ?_⟩
+      rw [beq_iff_eq] at hr ⊢
+      exact hr.symm
+
+/-! Non-vacuity.  Space 0 holds `c0(x) = x + r0` (reference `r0` of space 0, by name), the
+uncached `c1(x) = c0(x) + r1` (`r1` lives in space 1: attribute path) and `c3() = c2(1) + r0`
+(by attribute path `_space.r0`); space 1 holds `c2(x) = c1(x) * r1` (`r1` by name).  A history
+with evaluations, a change of `r1`, a change of `r0`, a deletion, an assignment and a formula edit
+is admissible; the invariant holds at its end, and the values really changed. -/
+def xCells : CellId → Option Expr
+  | 0 => some (.add (.param 0) (.readN 0))
+  | 1 => some (.add (.call 0 [.param 0]) (.readA 1))
+  | 2 => some (.mul (.call 1 [.param 0]) (.readN 1))
+  | 3 => some (.add (.call 2 [.lit 1]) (.readA 0))
+  | _ => none
+
+def xAr : CellId → Option Nat
+  | 0 => some 1 | 1 => some 1 | 2 => some 1 | 3 => some 0 | _ => none
+
+def xEnv : Env :=
+  tableEnv xCells xAr [0, 1, 2, 3] (fun c => c != 1) (fun _ => false)
+    (fun c => if c = 2 then 1 else 0) (fun r => if r = 1 then 1 else 0)
+    (fun r => if r = 0 then some (.int 10) else if r = 1 then some (.int 2) else none) 50
+
+theorem xEnv_wf : WF xEnv idLt :=
+  tableEnv_wf _ _ _ _ _ _ _ _ _
+    (by intro i e h
+        match i, h with
+        | 0, _ => simp
+        | 1, _ => simp
+        | 2, _ => simp
+        | 3, _ => simp)
+    (by intro i e h
+        match i, h with
+        | 0, h => cases h; exact ⟨rfl, rfl⟩
+        | 1, h => cases h; exact ⟨rfl, rfl⟩
+        | 2, h => cases h; exact ⟨rfl, rfl⟩
+        | 3, h => cases h; exact ⟨rfl, rfl⟩)
+
+def xOps : List Op :=
+  [.eval (3, []), .eval (0, [.int 5]), .setRef 1 (.int 3), .eval (3, []), .setRef 0 (.int 20), .eval (3, []),
+   .setValue (0, [.int 1]) (.int 100), .eval (3, []), .delRef 1, .eval (3, []), .setRef 1 (.int 1), .eval (3, [])]
+
+/-- the history is admissible: it contains no formula edit, so the regime is kept throughout -/
+theorem xOps_admissible : ∀ (ops : List Op) (st : Env × St), WF st.1 idLt →
+    (∀ op ∈ ops, match op with | .setFormula _ _ => False | .setCached _ _ => False | _ => True) →
+    Admissible idLt st ops := by
+  intro ops
+  induction ops with
+  | nil => intro _ _ _; trivial
+  | cons op rest ih =>
+    intro st hw hall
+    obtain ⟨env, s⟩ := st
+    have hstep : WF (step (env, s) op).1 idLt := by
+      have := hall op (by simp)
+      cases op with
+      | eval n => exact hw
+      | setValue n v => exact hw
+      | clearAt n => exact hw
+      | clear c => exact hw
+      | clearAll c => exact hw
+      | setRef r v => exact wf_withRef hw r (some v)
+      | delRef r =>
+        simp only [step]
+        split
+        · exact wf_withRef hw r none
+        · exact hw
+      | setFormula c f => exact this.elim
+      | setCached c b => exact this.elim
+    exact ⟨hstep, ih _ hstep (fun op' h' => hall op' (by simp [h']))⟩
+
+example : CI (run (xEnv, {}) xOps).1 idLt (run (xEnv, {}) xOps).2 :=
+  (reachable_ci idLt idLt_strict xEnv xEnv_wf xOps
+    (xOps_admissible xOps _ xEnv_wf (by intro op h; simp [xOps] at h; rcases h with rfl | rfl | rfl | rfl | rfl | rfl | rfl | rfl | rfl | rfl | rfl | rfl <;> trivial))).1
+
+/-- the values the history really produces: `c3()` = 36 at first, 52 after `r1 := 3`, 92 after
+`r0 := 20`, 329 after `c0(1) := 100`, a failure after `del r1`, 121 after `r1 := 1` -/
+example : (evalTop xEnv (3, []) {}).1 = .ok (.int 36) ∧
+    (evalTop (run (xEnv, {}) (xOps.take 3)).1 (3, []) (run (xEnv, {}) (xOps.take 3)).2).1 = .ok (.int 52) ∧
+    (evalTop (run (xEnv, {}) (xOps.take 5)).1 (3, []) (run (xEnv, {}) (xOps.take 5)).2).1 = .ok (.int 92) ∧
+    (evalTop (run (xEnv, {}) (xOps.take 7)).1 (3, []) (run (xEnv, {}) (xOps.take 7)).2).1 = .ok (.int 329) ∧
+    (evalTop (run (xEnv, {}) xOps).1 (3, []) (run (xEnv, {}) xOps).2).1 = .ok (.int 121) := by
+  decide
+
+/-- after `r1 := 3` the value of `c0(5)` – which does not depend on `r1` – is still held, the
+values computed from `r1` (by name in the other space, by attribute path through the uncached
+`c1`) are gone, and so are the reference-graph edges of everything removed (the read of `r1` made
+inside the uncached `c1` had been recorded for `c2(1)`, the nearest cached caller) -/
+example : ((run (xEnv, {}) (xOps.take 3)).2.data.map (·.1)) = [(0, [.int 5]), (0, [.int 1])] ∧
+    (run (xEnv, {}) (xOps.take 2)).2.rg = [(1, (2, [.int 1])), (0, (3, []))] ∧
+    (run (xEnv, {}) (xOps.take 3)).2.rg = [] := by
+  decide
+
+/-! ### the hypothesis `NoCatchEnv` is needed
+
+`c0() = raise if r0 < 1 else r0` in the space of `r0`, `c1() = try: c0() except: -1` in another space.
+`c1` holds `-1`; after `r0 := 5` the live model still answers `-1`, a model that saw only the
+edit answers `5`: the full statement (without `NoCatchEnv`) is false of the mechanism – and of
+modelx (known finding C02-caught-failure-untracked, `corpus/C02/known-caught-failure.json`). -/
+def cCells : CellId → Option Expr
+  | 0 => some (.ite (.lt (.readN 0) (.lit 1)) (.raise kValue) (.readN 0))
+  | 1 => some (.try_ (.call 0 []) .all (.lit (-1)))
+  | _ => none
+
+def cAr : CellId → Option Nat
+  | 0 => some 0 | 1 => some 0 | _ => none
+
+def cEnv : Env :=
+  tableEnv cCells cAr [0, 1] (fun _ => true) (fun _ => false) (fun c => if c = 1 then 1 else 0) (fun _ => 0)
+    (fun r => if r = 0 then some (.int 0) else none) 50
+
+theorem full_statement_fails_catch :
+    ¬ (∀ (env : Env) (s : St) (r : RefId) (v : Val), Good env (inpOf s) s →
+        Good (env.withRef r (some v)) (inpOf (s.setRef env r)) (s.setRef env r)) := by
+  intro h
+  have hgood : Good cEnv (inpOf (evalTop cEnv (1, []) {}).2) (evalTop cEnv (1, []) {}).2 := by
+    have hg0 : Good cEnv (fun _ => none) {} := ⟨by intro n v _ hl; simp at hl, by intro n v _ hi; cases hi⟩
+    have hinp : inpOf (evalTop cEnv (1, []) {}).2 = fun _ => none := by
+      funext n
+      have : (evalTop cEnv (1, []) {}).2.inputs = [] := by decide
+      simp [inpOf, this]
+    rw [hinp]
+    exact (C01.eval_value_is_denotation_partial cEnv (fun _ => none) (1, []) {} hg0 rfl (by decide)).2.2
+  have := (h cEnv _ 0 (.int 5) hgood).sound (1, []) (.int (-1)) rfl (by decide)
+  have hspec : Den (cEnv.withRef 0 (some (.int 5)))
+      (inpOf ((evalTop cEnv (1, []) {}).2.setRef cEnv 0)) (1, []) (.ok (.int 5)) := by
+    have hinp : inpOf ((evalTop cEnv (1, []) {}).2.setRef cEnv 0) = fun _ => none := by
+      funext n
+      have : ((evalTop cEnv (1, []) {}).2.setRef cEnv 0).inputs = [] := by decide
+      simp [inpOf, this]
+    rw [hinp]
+    exact ⟨3, by decide⟩
+  have := Den_det _ _ _ _ _ this hspec
+  cases this
 
 end MxModel.C02
